@@ -6,6 +6,8 @@ import F1Verif.Generated.Facts
 import F1Verif.Expected
 namespace F1.Props.FactsC10
 
+-- (staged_Rate: re-proved semantically on the regenerated MiniGo programs, see Props/Refine*.lean)
+
 theorem fact_staged_NewRateCalculator : F1.Generated.skel_staged_NewRateCalculator = F1.Expected.skel_staged_NewRateCalculator := by rfl
 theorem fact_staged_addRange : F1.Generated.skel_staged_addRange = F1.Expected.skel_staged_addRange := by rfl
 theorem fact_staged_add : F1.Generated.skel_staged_add = F1.Expected.skel_staged_add := by rfl
